@@ -605,6 +605,18 @@ func (g *Gen) oblige(name, kind string, tags []string, guard, formula, desc stri
 			}
 		}
 	}
+	if o.QueryInst == "" && strings.Contains(formula, "(exists ((") && len(g.instIdx) > 0 {
+		// goal with an integer existential: try the index terms the function uses as witnesses
+		// (the instantiated goal implies the original one)
+		if xs := parseSx(formula); len(xs) == 1 {
+			if ig, ok := replaceIntExists(xs[0], true, append([]string{"0"}, g.instIdx...)); ok {
+				mark := "(assert (not " + goal + "))\n"
+				if k := strings.LastIndex(o.Query, mark); k > 0 {
+					o.QueryInst = o.Query[:k] + "(assert (not " + ig + "))\n" + o.Query[k+len(mark):]
+				}
+			}
+		}
+	}
 	g.obls = append(g.obls, o)
 	// assert-then-assume, but only for obligations that the current property check
 	// reports: a failing obligation of another property must not mask a failure here.
